@@ -100,6 +100,8 @@ def run_impl(case):
         "reaped": o["exit_observed"],
         "nout": len(o["stdout"]) if res else 0, "nerr": len(o["stderr"]) if res else 0,
         "joins": o.get("joins"), "thread_excs": o.get("thread_excs"), "elapsed": round(o["elapsed"], 3),
+        # only with case["record_sleeps"] (C14): the wait loop's pauses, run-length [[seconds, count], ...]
+        "wait_sleeps": o.get("wait_sleeps"), "idle_done": o.get("idle_done", 0), "input_sleep": o.get("input_sleep"),
         # only with case["glue"] (C08): the groups of events delivered within one poll interval of the wait loop
         "bursts": o.get("bursts") or [],
     }
@@ -117,7 +119,8 @@ def to_coq(case, obs):
         ct.b(case["pty"]), ct.b(bool(case.get("in"))), ct.b(case["warn"]), ct.b(case["async"]),
         ct.b(bool(case.get("start_error"))), ct.b("out" in ne), ct.b("err" in ne),
         kwarg_coq(case), opt_n(tenths(case.get("config_timeout"))),
-        ct.lst([ev_coq(e) for e in case["events"]]), o, opt_n(obs["interval"]), ct.b(obs.get("text_ok", True)))
+        ct.lst([ev_coq(e) for e in case["events"] if e[0] != "idle"]), o, opt_n(obs["interval"]),
+        ct.b(obs.get("text_ok", True)))       # ["idle", n] (C14): nothing happens, not an event of the model
 
 
 # ---------------------------------------------------------------------------
